@@ -71,12 +71,17 @@ func (c *Ctx) attachConformance() []string {
 				if len(ctr.Results) == 0 {
 					ctr.Results = tctr.Results
 				}
+				nEns := 0
 				for _, cl := range tctr.Clauses {
 					if cl.Kind != "requires" && cl.Kind != "ensures" {
 						continue
 					}
 					cp := *cl
 					if cl.Kind == "ensures" {
+						nEns++
+						if only := c.S.ConformOnly[tk]; only != nil && !only[nEns] {
+							continue
+						}
 						cp.Props = append([]string{}, props...)
 						if cp.Tag == "" {
 							cp.Tag = "conforms-to-" + tk
